@@ -46,6 +46,11 @@ CLAIMED["C14"] = dict(cat="proof", sec="DESIGN 4/C14",
     text="Frame conditions of condition constructors (user data-function dictionary unchanged, not aliased), non-interference of two conditions sharing a dictionary (plain and static samplers), repeatability of the unreduced loss with a static sampler, left/right data of a periodic condition evaluated on their own side (plain and static non-periodic sampler).",
     note=COND_NOTE, tech="contract-based deductive verification: frame conditions by heap snapshots + postconditions over abstract operands, z3")
 
+CLAIMED["C07"] = dict(cat="proof", sec="DESIGN 4/C07",
+    text="Repository side of the training protocol: Solver.training_step with a SYMBOLIC number of abstract conditions (loop invariant: loss = partial weighted sum defined by its recurrence; every condition once with the current step index; counter + 1), on_train_start, validation_step (no learnable state / counter change), configure_optimizers (optimizer class called once on parameters() with lr/args; scheduler dict) with parameters() proved to contain model weights, inverse-problem parameters and adaptive point weights of the real condition classes, and gradient reversal (backward = -grad). The equality of whole training histories follows from the ASSUMED Lightning protocol (A5) by induction outside the tool.",
+    note="A5 Lightning call protocol (external, not verified), A3 nn.Module parameter registration model (attribute assignment / register_parameter / ModuleList), A2, A9. Nothing inside Lightning / torch.optim is decided.",
+    tech="contract-based deductive verification: inductive loop invariant over a symbolic family of conditions + postconditions, z3")
+
 NA = {
  "C19": "restore fidelity is a property of Lightning's checkpoint / torch.save machinery, the file system and process restarts; no contract on a repo function expresses it (DESIGN 4/C19)",
  "C20": "shift-equivariance / resolution consistency are DFT theorems about torch.fft in complex floating point; a contract on _FourierLayer.forward could only restate them as axioms of an external library (DESIGN 4/C20)",
